@@ -302,7 +302,8 @@ pub struct State {
     pub pipes: Vec<Pipe>,
     pub ofds: BTreeMap<u64, Ofd>,
     next_ofd: u64,
-    pub locks: BTreeMap<(String, Ino), u64>,
+    /// flock(2) state per file: the open file descriptions holding it and whether the hold is shared
+    pub locks: BTreeMap<(String, Ino), (bool, Vec<u64>)>,
     pub captures: Vec<Vec<u8>>,
     pub trace: Vec<OpRec>,
     pub decisions: Vec<(Pid, u64)>,
@@ -694,9 +695,7 @@ impl State {
     pub fn close_ofd(&mut self, id: u64) {
         if let Some(o) = self.ofds.remove(&id) {
             let key = (o.host.clone(), o.ino);
-            if self.locks.get(&key) == Some(&id) {
-                self.locks.remove(&key);
-            }
+            self.lock_release(&key, id);
             self.fs(&o.host).close(o.ino);
         }
     }
